@@ -127,6 +127,11 @@ def build_node(
             return process_method(*args, **kwargs, **(dependencies_default or {}))
 
     class_name = class_name or f'Generic{node.__name__}'
+
+    # A bound method is pickled by name (process pool): the wrapper must be reachable under the attribute it is stored as
+    class_method.__name__ = 'process'
+    class_method.__qualname__ = f'{class_name}.process'
+
     created_node = type(
         class_name,
         (node,),
